@@ -13,20 +13,20 @@ import (
 )
 
 type oblEvidence struct {
-	ID        string `json:"id"`
-	Harness   string `json:"harness"`
-	Arith     string `json:"arith"`
-	Paths     int    `json:"paths_reaching"`
-	Unsat     int    `json:"unsat"`
-	Trivial   int    `json:"concrete_true"`
-	Sat       int    `json:"sat"`
-	KnownSat  int    `json:"sat_in_known_finding_region"`
-	KnownUndecided int `json:"undecided_in_known_finding_region"`
-	Unknown   int    `json:"unknown"`
-	SolverMS  int64  `json:"solver_ms"`
-	Status    string `json:"status"` // discharged | known-finding | violated | unreproduced | inconclusive | unreached
-	ReachOK   bool   `json:"reach_witness"`
-	ReachNote string `json:"reach_replay,omitempty"`
+	ID             string `json:"id"`
+	Harness        string `json:"harness"`
+	Arith          string `json:"arith"`
+	Paths          int    `json:"paths_reaching"`
+	Unsat          int    `json:"unsat"`
+	Trivial        int    `json:"concrete_true"`
+	Sat            int    `json:"sat"`
+	KnownSat       int    `json:"sat_in_known_finding_region"`
+	KnownUndecided int    `json:"undecided_in_known_finding_region"`
+	Unknown        int    `json:"unknown"`
+	SolverMS       int64  `json:"solver_ms"`
+	Status         string `json:"status"` // discharged | known-finding | violated | unreproduced | inconclusive | unreached
+	ReachOK        bool   `json:"reach_witness"`
+	ReachNote      string `json:"reach_replay,omitempty"`
 }
 
 func report(prop, tier string, seed int, l *Loaded, results []*taskResult, known []interp.KnownRegion,
@@ -374,9 +374,9 @@ func report(prop, tier string, seed int, l *Loaded, results []*taskResult, known
 				"cmd": strings.Join(solverCmd, " "), "queries": solverQ, "sat": solverSat, "unsat": solverUnsat, "unknown": solverUnk, "time_s": solverTime,
 			},
 			"cross_solver": cross,
-			"bounds": boundsFor(tier),
-			"load_s": l.LoadS,
-			"notes":  notes,
+			"bounds":       boundsFor(tier),
+			"load_s":       l.LoadS,
+			"notes":        notes,
 		},
 		"assumptions": assumptions,
 	}
@@ -407,14 +407,14 @@ var assumptions = []string{
 func boundsFor(tier string) map[string]interface{} {
 	tc := tiers[tier]
 	return map[string]interface{}{
-		"universe":            "2 delegators, 3 validators, 2 alliance denoms (+ bond denom), records per harness as stated in the harness source",
-		"magnitudes":          "token amounts 1..10^30 unless a harness states a smaller range; shares up to 10^48; rates/fractions in their documented ranges",
-		"power_unroll":        tc.MaxPower,
-		"max_paths_per_task":  tc.MaxPaths,
-		"max_ssa_steps":       tc.MaxSteps,
-		"branch_timeout_ms":   tc.BranchTO.Milliseconds(),
-		"assert_timeout_ms":   tc.AssertTO.Milliseconds(),
-		"outside":             "anything needing a larger universe, deeper histories than the harness unrolls, overflow of the fixed-point library, real x/bank, x/staking, x/distribution internals",
+		"universe":           "2 delegators, 3 validators, 2 alliance denoms (+ bond denom), records per harness as stated in the harness source",
+		"magnitudes":         "token amounts 1..10^30 unless a harness states a smaller range; shares up to 10^48; rates/fractions in their documented ranges",
+		"power_unroll":       tc.MaxPower,
+		"max_paths_per_task": tc.MaxPaths,
+		"max_ssa_steps":      tc.MaxSteps,
+		"branch_timeout_ms":  tc.BranchTO.Milliseconds(),
+		"assert_timeout_ms":  tc.AssertTO.Milliseconds(),
+		"outside":            "anything needing a larger universe, deeper histories than the harness unrolls, overflow of the fixed-point library, real x/bank, x/staking, x/distribution internals",
 	}
 }
 
